@@ -63,6 +63,8 @@ type Step struct {
 
 // CacheCase is a program, an initial tree and a history.
 type CacheCase struct {
+	// Dir names the directory holding the spokfile ("" = proj)
+	Dir   string            `json:"dir,omitempty"`
 	Tasks []TaskSpec        `json:"tasks"`
 	Init  map[string]string `json:"init"`
 	Steps []Step            `json:"steps"`
@@ -233,6 +235,9 @@ func writeFile(root, rel, content string) error {
 // execCache replays a history against spok and the reference model and evaluates the
 // predicate of property id (C01, C02 or C14) after every run step.
 func execCache(id string, s *ev.Shard, root string, c CacheCase) *rp.Fail {
+	if c.Dir != "" {
+		root = filepath.Join(filepath.Dir(root), c.Dir)
+	}
 	_ = os.RemoveAll(root)
 	if err := os.MkdirAll(root, 0o755); err != nil {
 		return &rp.Fail{Sig: "harness", Msg: err.Error()}
